@@ -161,11 +161,12 @@ def z(sort):
 
 class V:
     """symbolic value: z3 term + contract sort"""
-    __slots__ = ("t", "s", "lazy")
+    __slots__ = ("t", "s", "lazy", "all_none")
 
     def __init__(self, t, s, lazy=None):
         self.t, self.s = t, s
         self.lazy = lazy        # set of heap keys a lazy iterator keeps reading (None: a plain value / snapshot)
+        self.all_none = False   # a sequence known to consist of None only ([None] * k)
 
     def __repr__(self):
         return "V(%s:%s)" % (self.t, self.s)
